@@ -510,6 +510,17 @@ func combinatorUnwiredCase(c *Case) Verdict {
 	k := 1 + t.Choose(simrt.StGen, 3, 0)
 	miss := t.Choose(simrt.StGen, k, 0)
 	c.Fault("unconnected-port")
+	if t.Choose(simrt.StGen, 3, 0) == 2 {
+		// a dependent FileGlobber whose dependency port is the one left unwired
+		prep := oneToOne(w, "prepare", Edge{srcNode(w, "srcp", 1, ""), "out"})
+		_ = prep
+		w.Sources["data/g1.txt"] = "glob source 1\n"
+		g := addNode(w, Node{Name: "glob", Kind: KGlobber, Globs: []string{"data/*.txt"}, Files: []string{"data/g1.txt"},
+			Ins: []InSpec{{Name: "in_dep", Unconnected: true}}, Outs: []OutSpec{{Name: "out"}}})
+		oneToOne(w, "copy", Edge{g, "out"})
+		c.Sample = "dependent FileGlobber with in_dep unconnected: " + sample(w)
+		return refusalOracle(c, w, "in-port in_dep of glob")
+	}
 	if t.Choose(simrt.StGen, 2, 0) == 0 {
 		cmb := Node{Name: "comb", Kind: KFileCombinator}
 		for i := 0; i < k; i++ {
